@@ -349,6 +349,24 @@ def c20_venue_value(op, impl, model):
     return None
 
 
+def c06_accrual(op, impl, model):
+    """b.accrue <bank 16> ..  =>  ok <bank 16> <last_update> ..: same share values, different fee buckets"""
+    if not op.startswith("b.accrue"):
+        return None
+    i, m = _nums(impl), _nums(model)
+    if not i or not m or len(i) != len(m) or len(i) < 16:
+        return None
+    if i[0:4] != m[0:4]:
+        return None   # the share values / totals themselves differ: not this rule
+    names = {4: "insurance", 5: "group", 6: "program"}
+    diffs = [(names[k], i[k], m[k]) for k in (4, 5, 6) if i[k] != m[k]]
+    if not diffs:
+        return None
+    what = "; ".join(f"{n} fees outstanding {a} where the borrowers' charge implies {b}" for (n, a, b) in diffs)
+    return (f"C06 an accrual moves the share values exactly as the rates demand (deposit share value {i[0]}, debt share value {i[1]}) but books {what}: "
+            f"the increase in total debt no longer equals the increase in total deposits plus the fees booked: {op[:300]}")
+
+
 WITNESS = {
     "C04": [c04_health, emode_dupes("C04")],
     "C13": [emode_dupes("C13"), accepted_invalid_curve("C13")],
@@ -360,6 +378,7 @@ WITNESS = {
     "C16": [c16_foc, c16_tags],
     "C03": [ixf_tokens("C03")],
     "C17": [c17_limits],
+    "C06": [c06_accrual],
     "C19": [c19_emissions],
     "C02": [c02_closebank],
     "C11": [c11_health],
